@@ -212,3 +212,8 @@ Proof.
   destruct (last_k 6 params) as [|rho [|p1 [|g1 [|p2 [|g2 [|p2d [|? ?]]]]]]]; try reflexivity.
   rewrite c1_point_pos_rep_linear, (c2_point_pos_linear o s2 theta). apply opt_mix_scale.
 Qed.
+
+Lemma mixtures_point_mass_repaired_linear o s1 s2 rep (theta : R) params :
+  mixture_sym_point_pos o s1 s2 true rep theta params = oscale theta (mixture_sym_point_pos o s1 s2 true rep 1 params) /\
+  mixture_point_pos o s1 s2 true rep theta params = oscale theta (mixture_point_pos o s1 s2 true rep 1 params).
+Proof. split; [apply mixture_sym_point_pos_linear | apply mixture_point_pos_linear]. Qed.
